@@ -29,7 +29,74 @@ fn boundary_opts(ch: &mut Ch) -> Vec<(u16, Vec<u8>)> {
     v
 }
 
+/// A well-formed message whose recognised options and payload carry the
+/// values that "helpful" normalisation would touch: content formats with
+/// textual payloads (byte order mark, surrounding white space, NUL), URIs with
+/// upper case, dot segments, percent escapes and default ports, integers with
+/// leading zeros.  A parser has to hand all of it through unchanged.
+fn meaningful_datagram(ch: &mut Ch) -> Vec<u8> {
+    let mut opts: Vec<(u32, Vec<u8>)> = Vec::new();
+    let n = 1 + ch.below(4, "sem.nopts");
+    for _ in 0..n {
+        let (num, vals): (u32, &[&[u8]]) = match ch.below(12, "sem.opt") {
+            0 => (12, &[b"", b"\x00", b"\x28", b"\x29", b"\x2a", b"\x2f", b"\x32", b"\x3c", b"\x2d\x16", b"\x00\x32"]),
+            1 => (17, &[b"", b"\x28", b"\x32", b"\x00\x00"]),
+            2 => (3, &[b"EXAMPLE.com", b"example.com.", b"[::1]", b"h", b"xn--nxasmq6b"]),
+            3 => (11, &[b".", b"..", b"%2e%2E", b"A", b"a", b"", b" a ", b"a%20b", b".well-known", b"core"]),
+            4 => (15, &[b"a=b&c=d", b"A=1", b"", b"q=%41", b" x", b"a=1;b=2"]),
+            5 => (35, &[b"HTTP://H/p", b"coap://h:5683/x", b"CoAP://h/../x", b"coaps://h/%7e", b"coap://h/x/"]),
+            6 => (7, &[b"\x16\x33", b"", b"\x00\x50", b"\x16\x34"]),
+            7 => (8, &[b"..", b"a", b"", b"%2F"]),
+            8 => (14, &[b"", b"\x3c", b"\x00\x3c", b"\xff\xff\xff\xff"]),
+            9 => (39, &[b"HTTP", b"coap", b"coap+tcp"]),
+            10 => (4, &[b"\x00", b"\x00\x00\x00\x00\x00\x00\x00\x00", b"etag", b"\xef\xbb\xbf"]),
+            _ => (20, &[b"a/../b", b"A", b"", b"x=%31"]),
+        };
+        let v = vals[ch.below(vals.len() as u64, "sem.val") as usize];
+        opts.push((num, v.to_vec()));
+    }
+    let prefix: &[u8] = match ch.below(10, "sem.pay.prefix") {
+        0 => b"",
+        1 => b"\xef\xbb\xbf",
+        2 => b" ",
+        3 => b"\r\n",
+        4 => b"\x00",
+        5 => b"\xff",
+        6 => b"\xfe\xff",
+        7 => b"\t",
+        8 => b"{",
+        _ => b"</",
+    };
+    let body: &[u8] = match ch.below(6, "sem.pay.body") {
+        0 => b"",
+        1 => b"text",
+        2 => b"{\"a\":1}",
+        3 => b"</a>;rt=\"x\",</b>",
+        4 => b"22.5 C",
+        _ => b"\xc3\xa9",
+    };
+    let suffix: &[u8] = match ch.below(7, "sem.pay.suffix") {
+        0 => b"",
+        1 => b"\n",
+        2 => b"\r\n",
+        3 => b" ",
+        4 => b"\x00",
+        5 => b"\xff",
+        _ => b"\xef\xbb\xbf",
+    };
+    let mut payload = prefix.to_vec();
+    payload.extend_from_slice(body);
+    payload.extend_from_slice(suffix);
+    let code = *ch.pick(&[1u8, 2, 3, 0x45, 0x44, 5, 0x84], "sem.code");
+    let tl = ch.below(3, "sem.toklen") as usize;
+    let token: Vec<u8> = (0..tl).map(|i| 0x30 + i as u8).collect();
+    crate::refparse::encode(1, ch.below(4, "sem.type") as u8, code, ch.below(65536, "sem.mid") as u16, &token, &opts, &payload)
+}
+
 fn byzantine_datagram(ch: &mut Ch) -> Vec<u8> {
+    if ch.chance(1, 6, "byz.meaningful") {
+        return meaningful_datagram(ch);
+    }
     if ch.chance(1, 6, "byz.raw") {
         // raw random string of length 0..12
         let n = ch.below(13, "byz.rawlen") as usize;
